@@ -254,6 +254,21 @@ func renderNum(d decimal.Decimal, st *Style) *TV {
 			return tvPtr(tvInt("int", d.Truncate(0).String()))
 		}
 		return tvPtr(asF())
+	case "f32": // the nearest 32-bit float (NOT the same number as d in general: compared among the three f32 styles only)
+		return tvF32(float32(f), 2)
+	case "nf32":
+		return tvF32(float32(f), 3)
+	case "pf32":
+		return tvPtr(tvF32(float32(f), 2))
+	case "stringer": // named number types that have a String method
+		if isWholeSmall(d) {
+			return tvSInt("int64", d.Truncate(0).String())
+		}
+		t := asF()
+		if t.T == "f64" {
+			t.N = 4
+		}
+		return t
 	}
 	return asF()
 }
